@@ -107,7 +107,8 @@ impl C15 {
                 _ => &[0, 1],
             };
             let genuine_kind = tx.kind == kind;
-            let key = PoolKey::from_bytes(&tx.data);
+            // a name with one denomination on both sides names no pool (a pool has two sides, each its own denomination)
+            let key = PoolKey::from_bytes(&tx.data).filter(|k| k.left() != k.right());
             let denoms_ok = match (&key, kind) {
                 (Some(k), TxKind::Swap) => !tx.outputs.is_empty() && (tx.outputs[0].denom == k.left() || tx.outputs[0].denom == k.right()),
                 (Some(k), TxKind::LiqDeposit) => tx.outputs.len() >= 2 && tx.outputs[0].denom == k.left() && tx.outputs[1].denom == k.right(),
@@ -519,7 +520,7 @@ pub fn run(p: &Params) -> Report {
         }
         mon.case_seed = case_seed;
         let mut w = World::random(case_seed);
-        w.profile = Profile { normal: 8, newcustom: 5, faucet: 5, swap: 34, deposit: 20, withdraw: 16, stake: 1, doscmint: 1, hostile: 5, odd_spelling_permille: 200, wrong_kind_permille: 150, dependent_permille: 250, max_batch: 12, big_values_permille: 120, degenerate_permille: 40 };
+        w.profile = Profile { normal: 8, newcustom: 5, faucet: 5, swap: 34, deposit: 20, withdraw: 16, stake: 1, doscmint: 1, hostile: 5, odd_spelling_permille: 200, wrong_kind_permille: 150, dependent_permille: 250, max_batch: 12, big_values_permille: 120, degenerate_permille: 40, fast_mint_permille: 0, crowd_permille: 0 };
         w.twin_deposits = case % 3 == 0;
         let blocks = 6 + (case % 14) as usize;
         run_history(&mut w, blocks, &mut [&mut mon]);
